@@ -1023,7 +1023,10 @@ static void _GD_FlushFragment(DIRFILE* D, int i, int permissive)
 
   /* Frame offset */
   if (permissive || D->standards >= 1)
-    if (D->fragment[i].frame_offset != 0)
+    /* an included fragment inherits its parent's frame offset: a zero offset
+     * must then be written explicitly */
+    if (D->fragment[i].frame_offset != 0 || (i > 0 &&
+          D->fragment[D->fragment[i].parent].frame_offset != 0))
       if (fprintf(stream, "%sFRAMEOFFSET %" PRIu64 "\n",
             (D->standards >= 5) ? "/" : "", D->fragment[i].frame_offset) < 0)
       {
